@@ -157,7 +157,7 @@ func mustReject(c *ev.Case, inplace bool, m *gcmMsg, ct, nonce, aad []byte, what
 
 func newGCMMsg(c *ev.Case, klen, n, nonceLen, aadLen int, nilAAD bool) (*gcmMsg, string) {
 	rng := c.Rng
-	m := &gcmMsg{key: rng.Bytes(klen), nonce: rng.Bytes(nonceLen)}
+	m := &gcmMsg{key: genKey(c, rng, klen), nonce: rng.Bytes(nonceLen)}
 	var kind string
 	m.pt, kind = genText(rng, n)
 	if aadLen == 0 && nilAAD {
